@@ -411,6 +411,34 @@ def run_e2(sc):
                         want = pulled(ci, ii)
                         if got is None or want is None or abs(mag(got) - want) > 1e-9 * max(1, abs(want)):
                             v("initial-value", "value", f"{comp.name}.{i['name']}: initial pull {None if got is None else mag(got)}, producer's initial value {want}")
+                # both ends of every link agree on the metadata (C07 rides along here: components with info
+                # transfer rules exist only in this engine)
+                for ln in sc["links"]:
+                    if ln["dst"][0] != ci:
+                        continue
+                    ispec = comps_spec[ci]["inputs"][ln["dst"][1]]
+                    ospec = comps_spec[ln["src"][0]]["outputs"][ln["src"][1]]
+                    try:
+                        ii_ = comp.inputs[ispec["name"]].info
+                        oi_ = comps[ln["src"][0]].outputs[ospec["name"]].info
+                    except Exception as e:      # noqa: BLE001
+                        v("meta-unset-field", "no-info", f"{comp.name}.{ispec['name']}: no metadata after a successful connect ({e})")
+                        continue
+                    if ii_.time is None or ii_.grid is None or ii_.units is None:
+                        v("meta-unset-field", "input", f"{comp.name}.{ispec['name']}: unset field after connect: {ii_}")
+                        continue
+                    from finam.data.tools import compatible_units, equivalent_units
+                    want_u = None
+                    if isinstance(ispec["info"], list):
+                        want_u = ispec.get("rule_units")
+                    elif ispec["info"] in ("known", "known+connect"):
+                        want_u = ispec.get("units") or oi_.units
+                    if not compatible_units(oi_.units, ii_.units):
+                        v("meta-units", "not-convertible", f"{comp.name}.{ispec['name']}: units {ii_.units} after connect are not "
+                          f"convertible from the delivered {oi_.units}")
+                    elif want_u is not None and not equivalent_units(ii_.units, want_u):
+                        v("meta-units", "changed", f"{comp.name}.{ispec['name']}: units {ii_.units} after connect, the input "
+                          f"asked for / was to take over {want_u}")
                 for oi, o in enumerate(comps_spec[ci]["outputs"]):
                     pubs = [e[2] for e in rec.events if e[0] == "PUSH" and e[1] == f"{comp.name}.{o['name']}"]
                     has_t = any(l["src"] == [ci, oi] for l in sc["links"]) and o.get("okind") != "callback"
